@@ -2,7 +2,7 @@ import sys, importlib, time
 sys.path.insert(0, "/verif")
 from pyvc import verify as VF, run as R
 import checker; checker.load_contracts()
-names = sys.argv[1:]
+names = [a for a in sys.argv[1:] if not a.startswith('-')]
 for key, cls in VF.CONTRACTS.items():
     if names and not any(n in key[1] for n in names):
         continue
@@ -10,10 +10,13 @@ for key, cls in VF.CONTRACTS.items():
     t0 = time.time()
     res = R.verify_contract(v, cls)
     print("==", key, res["status"], res["error"], res["stats"], "%.1fs" % (time.time() - t0))
+    import collections
+    print("   ", dict(collections.Counter(ob.result.verdict for ob in res["obligations"])))
     for ob in res["obligations"]:
         r = ob.result
         flag = {"unsat": "ok  ", "sat": "FAIL", "unknown": "??? "}[r.verdict]
-        print("  ", flag, ob.oid, r.solver, "%.2f" % r.time)
+        if r.verdict != "unsat" or "-a" in sys.argv:
+            print("  ", flag, ob.oid, r.solver, "%.2f" % r.time)
         if r.verdict != "unsat":
             print("      trace:", ob.trace[-6:])
             print("      goal:", ob.goal)
